@@ -301,6 +301,11 @@ func cmdCheck(args []string) {
 			results = append(results, verifyTable(l, cs, tb))
 		}
 	}
+	for _, d := range cs.FlagDrift {
+		if prop == "C02" {
+			driftHere = append(driftHere, d)
+		}
+	}
 	// a contract that names a loop the function no longer has is drift too
 	for _, r := range results {
 		for _, u := range r.Unsupported {
